@@ -538,31 +538,26 @@ def judge(case):
 
 
 # what the code of a bounded wrapper (and of the module-level helpers it calls) may *reach*: judged by what each global / builtin name it mentions
-# resolves to, not by how the names are spelled - hoisting a tuple of types into a module constant or renaming a helper is not a finding
-_HARMLESS_BUILTINS = {"isinstance", "issubclass", "len", "abs", "round", "max", "min", "sum", "pow", "divmod", "all", "any", "sorted", "reversed", "enumerate", "zip",
-                      "range", "iter", "next", "callable", "type", "map", "filter", "repr", "id", "hash", "NotImplemented"}
-_HARMLESS_TYPES = (int, float, bool, complex, str, bytes, bytearray, list, tuple, dict, set, frozenset, range, type(None), object, slice, type)
+# resolves to, not by how the names are spelled, and by exclusion - hoisting a tuple of types into a module constant, renaming a helper or using `re`
+# to read a format string is not a finding; reaching the machinery the statement excludes ("attribute access ... imports or any other code execution") is
+_DENIED_BUILTINS = {"eval", "exec", "compile", "open", "__import__", "getattr", "setattr", "delattr", "globals", "locals", "vars", "input", "breakpoint", "exit", "quit"}
+_DENIED_MODULES = {"os", "sys", "subprocess", "importlib", "io", "pathlib", "shutil", "socket", "ctypes", "pickle", "marshal", "inspect", "gc", "signal", "code", "codeop",
+                   "runpy", "pty", "tempfile", "glob", "fileinput", "urllib", "http", "threading", "multiprocessing", "asyncio", "atexit", "posix", "nt", "_io", "_thread"}
 
 
 def _harmless(target, vetted, module, depth):
     import inspect
-    import operator
     import types
-    if target is None or isinstance(target, (bool, int, float, complex, str, bytes)):
-        return True
-    if isinstance(target, (tuple, frozenset)):
-        return all(_harmless(x, vetted, module, depth) for x in target)
-    if isinstance(target, type):
-        return target in _HARMLESS_TYPES or issubclass(target, BaseException)
     if isinstance(target, types.ModuleType):
-        return target in (math, operator)
-    if any(target is v for v in vetted):
-        return True
-    if any(target is getattr(builtins, n, None) for n in _HARMLESS_BUILTINS):
-        return True
-    if inspect.isfunction(target) and target.__module__ == module and depth < 4:
-        return _reach_problem(target, vetted, module, depth + 1) is None
-    return False
+        return target.__name__.split(".")[0] not in _DENIED_MODULES | {"builtins"}
+    if any(target is getattr(builtins, n, None) for n in _DENIED_BUILTINS):
+        return False
+    if inspect.isfunction(target) and target.__module__ == module:
+        return depth >= 6 or _reach_problem(target, vetted, module, depth + 1) is None
+    owner = getattr(target, "__module__", None)
+    if isinstance(owner, str) and owner.split(".")[0] in _DENIED_MODULES:
+        return False
+    return True
 
 
 def _reach_problem(fn, vetted, module, depth=0):
@@ -588,8 +583,8 @@ _WRAPPER_GRID = [(), (0,), (1,), (5,), (-3,), (2.567,), (2.5,), (True,), ("7",),
 
 
 def _bounded_wrapper_problem(name, obj, vetted):
-    """A table entry may be a *bounded wrapper* of a vetted function: a plain function of the engine's own module named _bounded_<f> whose code reaches
-    nothing but constants, plain types, exceptions, math / operator, vetted functions and equally harmless helpers of the same module, and on a grid of ordinary arguments returns exactly what <f> returns (or raises what <f> raises),
+    """A table entry may be a *bounded wrapper* of a vetted function: a plain function of the engine's own module named _bounded_<f> whose code (and that of the
+    module-level helpers it calls) reaches none of the excluded machinery (eval / exec / compile / open / __import__ / getattr ..., os / sys / subprocess / importlib ...), and on a grid of ordinary arguments returns exactly what <f> returns (or raises what <f> raises),
     the only liberty being a ValueError refusal.  Returns None if `obj` qualifies, else the reason."""
     import inspect
     if not inspect.isfunction(obj) or obj.__module__ != "operon_ai.organelles.mitochondria" or not obj.__name__.startswith("_bounded_"):
